@@ -7,6 +7,8 @@ package vtime
 import (
 	"sync"
 	"time"
+
+	"github.com/gdamore/tcell/v2/verifrt"
 )
 
 type (
@@ -39,6 +41,9 @@ var (
 // Now returns the virtual clock, advancing it by one microsecond so that successive
 // readings are strictly increasing (as with a real clock).
 func Now() Time {
+	if verifrt.Active() {
+		return verifrt.Now()
+	}
 	mu.Lock()
 	defer mu.Unlock()
 	now = now.Add(Microsecond)
@@ -78,3 +83,18 @@ func ResetSleep() {
 
 func Since(t Time) Duration { return Now().Sub(t) }
 func Unix(s, ns int64) Time { return time.Unix(s, ns) }
+
+// ---- timers: virtual when a controlled execution is active ----
+
+type Timer struct {
+	C <-chan Time
+	v *verifrt.Timer
+}
+
+func NewTimer(d Duration) *Timer {
+	v := verifrt.NewTimer(d)
+	return &Timer{C: v.C, v: v}
+}
+
+func (t *Timer) Stop() bool            { return t.v.Stop() }
+func (t *Timer) Reset(d Duration) bool { return t.v.Reset(d) }
